@@ -21,7 +21,7 @@ From RU Require Import Proofs.C02_JoinAbs Proofs.C02_JoinPath Proofs.C02_Segment
 From RU Require Import Proofs.C02_Ovr Proofs.C02_Reach7.
 From RU Require Import Proofs.C02_File Proofs.C02_FileL1 Proofs.C02_FileCanon.
 From RU Require Import Proofs.C02_FileParse Proofs.C02_FileHost Proofs.C02_FileSet Proofs.C02_Reach8.
-From RU Require Import Proofs.C02_FileOps Proofs.C02_FileJoin Proofs.C02_Reach9.
+From RU Require Import Proofs.C02_FileOps Proofs.C02_FileJoin Proofs.C02_PathSetter Proofs.C02_FileSetPath Proofs.C02_Reach9.
 Open Scope string_scope.
 Open Scope N_scope.
 Open Scope list_scope.
@@ -1709,6 +1709,36 @@ Proof. exact step_file8_CanonF. Qed.
    OSetHost None *)
 Print Assumptions C02_step_file8.
 
+(* the path setters on a canonical file record.  The setter context of the file path loop is the URL-parser context on
+   the text with '?' and '#' escaped (no premise "not the file scheme" any more) *)
+Theorem C02_file_loop_setter : forall dbg ps l ser ss a b hh, usv_list l -> pend_eq a b ->
+  parse_path_loop dbg CSetter STFile ps l ser ss a hh = parse_path_loop dbg CUrlParser STFile ps (qh_sub l) ser ss b hh.
+Proof. exact loop_setter_sub_f. Qed.
+Print Assumptions C02_file_loop_setter.
+
+(* Url::set_path: the record has a host, or the argument starts with '/' or '\' (after tab / LF / CR removal);
+   url::quirks::set_pathname: every argument *)
+Theorem C02_set_path_File : forall dbg hp (hpo : list N -> result host) hd u x u', FileCanon hp hd u -> usv_list x -> has_host u || lead_slash x = true ->
+  set_path dbg u x = Some u' -> nlen (ser u') <= U32_MAX_P -> Known_file_drive u' = false -> FileCanon hp hd u'.
+Proof. exact set_path_File. Qed.
+Check C02_set_path_File : forall dbg hp (hpo : list N -> result host) hd u x u', FileCanon hp hd u -> usv_list x ->
+  has_host u || match inp_next x with Some (c, _) => is_slash_or_bslash c | None => false end = true ->
+  set_path dbg u x = Some u' -> nlen (ser u') <= U32_MAX_P -> Known_file_drive u' = false -> FileCanon hp hd u'.
+Print Assumptions C02_set_path_File.
+
+Theorem C02_q_set_pathname_File : forall dbg hp (hpo : list N -> result host) hd u v u', FileCanon hp hd u -> usv_list v ->
+  q_set_pathname dbg u v = Some u' -> nlen (ser u') <= U32_MAX_P -> Known_file_drive u' = false -> FileCanon hp hd u'.
+Proof. exact q_set_pathname_File. Qed.
+Print Assumptions C02_q_set_pathname_File.
+
+(* outside the premise of C02_set_path_File the merge is different (first segment at path_start: ".." does not remove
+   it); still a fixpoint on the witness *)
+Example C02_file_set_path_no_slash :
+  m_is (m_hist "file:///x" [OSetPath (B "a/../b")]) "file:///a/b" = true
+  /\ m_is (m_hist "file:///x" [OSetPath (B "/a/../b")]) "file:///b" = true
+  /\ file_path_op (file_curl host_display None (B "/x") None None) (OSetPath (B "a/../b")) = false.
+Proof. exact file_set_path_no_slash. Qed.
+
 (* R.3  joins.  A reference with the file scheme does not consult the base when the base is not a file URL or two
    slashes follow "file:" (any base at all) *)
 Theorem C02_join_file_abs_eq : forall dbg hp hpo hd ovr b input, file_abs_ref b input = true ->
@@ -1740,9 +1770,10 @@ Print Assumptions C02_join_file_base.
 
 (* R.4  the reach theorem: every record of a ReachC8 history (C02_Reach9: ReachC7 and every join against a file
    record, base-free file references against any Reachable4 base, the operations file_op8 on file records) is a
-   fixpoint.  STILL OUTSIDE ReachC8 and inside Reachable4: on file records Url::set_path, quirks pathname and
-   path_segments_mut sessions (on file records the host setters with an argument are outside Reachable4 itself:
-   Known_F_C02_4); joins of a no-scheme or same-special-scheme reference against a Reachable4 base that is not in
+   fixpoint; RC8_step_file_path adds quirks pathname and Url::set_path (file_path_op) on file records.
+   STILL OUTSIDE ReachC8 and inside Reachable4: on file records path_segments_mut sessions and Url::set_path with an
+   argument without leading slash on a record without a host (on file records the host setters with an argument are
+   outside Reachable4 itself: Known_F_C02_4); joins of a no-scheme or same-special-scheme reference against a Reachable4 base that is not in
    ReachC8; the steps from Reachable4 records that are not in ReachC8. *)
 Theorem C02_reach_partial8 : forall dbg hp hpo hd, HostOK2 hp hpo hd -> host_nonempty hp hpo -> host_no_wdl hp hd -> forall u,
   ReachC8 dbg hp hpo hd u ->
@@ -1784,7 +1815,11 @@ Example C02_reach_partial8_inhabited :
   /\ m_is (m_hist "file://h.x/a b?q#f" [OSetScheme (B "https")]) "https://h.x/a%20b?q#f" = true
   /\ m_is (m_hist "file:///a" [OSetScheme (B "http"); OQProtocol (B "ws:")]) "file:///a" = true
   /\ m_is (m_hist "file://h.x/a?q" [OSetHost None]) "file:///a?q" = true
+  /\ m_is (m_hist "file://h.x/x" [OSetPath (B "a/../b?c")]) "file://h.x/b%3Fc" = true
+  /\ m_is (m_hist "file:///x" [OSetPath (B "\\a/../b")]) "file:///b" = true
+  /\ m_is (m_hist "file:///x" [OQPathname (B "a/../b#c")]) "file:///b%23c" = true
   /\ file_abs_ref (file_curl host_display None (B "/a") None None) (B "file://g.y/c")
+     && file_path_op (file_curl host_display None (B "/x") None None) (OSetPath (B "\\a/../b"))
      && file_op8 (OSetHost None) && file_op8 (OQProtocol (B "ws:")) && file_op8 (OSetPort (Some 8080)) = true.
 Proof. exact reach8_example. Qed.
 
